@@ -59,6 +59,26 @@ def generate(rng, tier):
                 files += f2; rules += r2; truth[new] = t2[old]; info[new] = i2[old]
                 cases.append({"files": files, "rules": rules, "truth": truth, "info": info, "jobs": jobs,
                               "junit": rng.random() < 0.5, "fail_fast": False, "meta": {"single": kind}})
+    # CREATE DATABASE fails for one file of a parallel run (the error is only printed): the file still counts - here it has a failing record
+    for jobs in ([2] if tier == "quick" else [1, 2, 4]):
+        files, rules, truth, info = clifam.make_set(rng, rng.randint(1, 3), kinds=["pass"], parallel=True)
+        f2, r2, t2, i2 = clifam.make_set(rng, 1, kinds=["fail"], parallel=True, start=60)
+        old_, new_ = f2[0][0], "t/zz_nodb.slt"
+        f2[0][0] = new_
+        files += f2; rules += r2 + [{"match": "CREATE DATABASE " + clifam.case_name(new_), "err": "permission denied to create database"}]
+        truth[new_] = t2[old_]; info[new_] = i2[old_]
+        cases.append({"files": files, "rules": rules, "truth": truth, "info": info, "jobs": jobs, "junit": True, "fail_fast": False, "meta": {"single": "create-db-fails"}})
+    # a failure whose text says "Connection refused" stops the run (the remaining files are reported skipped / cancelled, never dropped)
+    for jobs in ([None, 2] if tier == "quick" else [None, 1, 2, 3]):
+        files, rules, truth, info = clifam.make_set(rng, rng.randint(2, 4), kinds=["pass"], parallel=bool(jobs), start=10)
+        f2, r2, t2, i2 = clifam.make_set(rng, 1, kinds=["fail"], parallel=bool(jobs), start=70)
+        old_, new_ = f2[0][0], "t/a00_refused.slt"
+        f2[0][0] = new_
+        for r in r2:
+            r["err"] = "could not connect to server: Connection refused"
+        files = f2 + files; rules += r2; truth[new_] = t2[old_]; info[new_] = i2[old_]
+        cases.append({"files": files, "rules": rules, "truth": truth, "info": info, "jobs": jobs, "junit": True, "fail_fast": False, "refused": True,
+                      "meta": {"single": "connection-refused-text"}})
     return cases
 
 
@@ -111,7 +131,7 @@ def execute(cases, tier):
                     spec = spec or "contradicts L1: %s reported [OK] but its scenario makes it fail (%s)" % (p, c["info"][p]["kind"])
                 if tag == "FAILED" and truth[p] == "ok":
                     spec = spec or "contradicts L1: %s reported [FAILED] but every record passes" % p
-                if tag in ("SKIPPED", "CANCELLED") and not (c["fail_fast"] and any_fail):
+                if tag in ("SKIPPED", "CANCELLED") and not ((c["fail_fast"] or c.get("refused")) and any_fail):
                     spec = spec or "contradicts L1: %s reported %s without fail-fast failure or interrupt" % (p, tag)
                 if tag is None:
                     spec = spec or "contradicts L1: no status tag for %s in %r" % (p, [l for _, _, l in st if _ == p])
